@@ -208,7 +208,7 @@ def classify_error(e, loc):
     if isinstance(e, UnknownCategoryError):
         return {"kind": "ucat", "loc": loc}
     if isinstance(e, AmbiguousNameError):
-        return {"kind": "amb", "cats": [str(c) for c in e.category_names], "loc": loc}
+        return {"kind": "amb", "cats": [str(c) for c in e.category_names], "loc": loc, "message": str(getattr(e, "message", None) or e).split("multiple categories:")[-1]}
     if isinstance(e, UnknownNameError):
         return {"kind": "uname", "loc": loc}
     return {"kind": "other", "detail": "%s: %s" % (type(e).__name__, e)}
@@ -299,6 +299,12 @@ def oracle(chk, entries, q, obs, text, col, case):
         got = sorted({x.lower() for x in obs["cats"]})
         if got != exp[1]:
             chk.oracle_fail("ambiguous %s: categories listed %r, having the name %r" % (t, obs["cats"], exp[1]), case)
+            return False
+        # ... and listed where the user sees them: in the text of the error
+        msg = obs.get("message", "").lower()
+        missing = [x for x in exp[1] if x not in msg]
+        if missing:
+            chk.oracle_fail("ambiguous %s: the error text %r does not name the categories %r" % (t, obs.get("message"), missing), case)
             return False
     loc = obs.get("loc")
     if loc is not None and k in ("ucat", "uname"):
@@ -547,6 +553,27 @@ def odd_user_names(chk, stats):
                         break
                 else:
                     out["reachable"] += 1
+        # a user alias may carry the bare name of a built-in alias and be defined in terms of it (qualified): both stay reachable
+        from tempren.pipeline import build_tag_registry
+        from tempren.alias import AliasTagFactory
+        with impl.quiet_streams():
+            reg0 = build_tag_registry({}, {})
+        wrapped = 0
+        for cat in reg0.category_map.values():
+            for tname, fac in cat.tag_map.items():
+                if not isinstance(fac, AliasTagFactory):
+                    continue
+                for body in ("%%%s.%s()" % (cat.name, tname), "x%%%s.%s()|%%Text.Upper()" % (str(cat.name).upper(), tname)):
+                    define = ["-a", "%s=%s" % (tname, body)]
+                    for tpl in ("%%Alias.%s()" % tname, "%%ALIAS.%s()_%%%s.%s()" % (tname, cat.name, tname)):
+                        r2, _ = run_main(define + ["-dr", "--", tpl + "_%Core.Name()", "in"], root)
+                        chk.count(("shadowing-alias", str(cat.name), str(tname), body, tpl))
+                        wrapped += 1
+                        if r2.status in (2, 3):
+                            chk.oracle_fail("the user alias %r defined as %r (wrapping the built-in alias of the same name) is rejected in %r: status %s: %s" % (
+                                str(tname), body, tpl, r2.status, r2.stderr.strip()[-200:]),
+                                {"tie": "user alias wrapping a same-named built-in alias", "cli": ["tempren"] + define + ["-dr", tpl, "in"]})
+        out["wrapping_same_named_builtin_alias"] = wrapped
         stats["odd_user_names"] = out
 
 
